@@ -338,6 +338,62 @@ def mp_runs(cases):
     return res
 
 
+def hist_runs(cases):
+    """histories of calls on ONE object: the same cKDTree_MP queried several times with equal-size point sets, the
+    same Proj_MP called several times, kd_tree.get_neighbour_info with segments (several queries on one tree)"""
+    import numpy as np
+    res = []
+    for c in cases:
+        try:
+            rs = np.random.RandomState(c["seed"])
+            calls = []
+            if c["what"] == "kdtree_repeat":
+                import scipy.spatial as sp
+                from pyresample._spatial_mp import cKDTree_MP
+                data = rs.uniform(-1, 1, size=(c["ndata"], 3))
+                tree = cKDTree_MP(data, nprocs=c["nprocs"], chunk=c["chunk"], schedule=c["kind"])
+                ref = sp.cKDTree(data)
+                for j in range(c["repeat"]):
+                    x = rs.uniform(-1, 1, size=(c["nx"], 3))
+                    d1, i1 = tree.query(x, k=c["k"])
+                    d0, i0 = ref.query(x, k=c["k"])
+                    calls.append(bool(d1.shape == d0.shape and np.array_equal(d1, d0) and np.array_equal(i1, i0)))
+            elif c["what"] == "proj_repeat":
+                import pyproj
+                from pyproj import CRS
+                from pyresample._spatial_mp import Proj_MP
+                from pyresample.utils.proj4 import get_geodetic_crs_with_no_datum_shift
+                crs = CRS.from_user_input(c["proj"])
+                tr = pyproj.Transformer.from_crs(get_geodetic_crs_with_no_datum_shift(crs), crs, always_xy=True)
+                pmp = Proj_MP(c["proj"])
+                for j in range(c["repeat"]):
+                    lons = rs.uniform(-60, 60, size=c["n"])
+                    lats = rs.uniform(-70, 70, size=c["n"])
+                    x1, y1 = pmp(lons, lats, nprocs=c["nprocs"], chunk=c["chunk"], schedule=c["kind"])
+                    xs, ys = tr.transform(lons, lats)
+                    x0, y0 = pyproj.Proj(c["proj"])(lons, lats)
+                    calls.append(bool(np.array_equal(x1, xs) and np.array_equal(y1, ys)
+                                      and np.allclose(x1, x0, rtol=1e-12, atol=1e-6) and np.allclose(y1, y0, rtol=1e-12, atol=1e-6)))
+            else:   # neighbour_info: nprocs=2 with segments (one tree, one query per segment) vs single process
+                from pyresample import geometry, kd_tree
+                rows, cols = c["shape"]
+                area = geometry.AreaDefinition("a", "a", "a", "+proj=laea +lat_0=50 +lon_0=10 +ellps=WGS84", cols, rows,
+                                               (-350000.0, -450000.0, 350000.0, 450000.0))
+                lons = rs.uniform(2, 18, size=c["nsrc"])
+                lats = rs.uniform(44, 56, size=c["nsrc"])
+                swath = geometry.SwathDefinition(lons=lons, lats=lats)
+                kw = dict(neighbours=c["k"], reduce_data=False)
+                v1, o1, i1, d1 = kd_tree.get_neighbour_info(swath, area, 150000, nprocs=c["nprocs"], segments=c["segments"], **kw)
+                v0, o0, i0, d0 = kd_tree.get_neighbour_info(swath, area, 150000, nprocs=1, segments=1, **kw)
+                calls.append(bool(np.array_equal(v1, v0) and np.array_equal(o1, o0) and i1.shape == i0.shape
+                                  and np.array_equal(i1, i0) and np.allclose(d1, d0, rtol=1e-9, atol=1e-6)))
+                calls.append(bool(np.any(np.isfinite(d0))))     # the reference finds neighbours (non-trivial case)
+            res.append({"ok": all(calls), "calls": calls})
+        except Exception as e:
+            res.append({"error": "%s: %s" % (type(e).__name__, e)})
+    return res
+
+
 def main():
     req = json.load(sys.stdin)
     out = {}
@@ -362,6 +418,11 @@ def main():
             out["mp"] = mp_runs(req["mp"])
         except Exception as e:
             out["mp_unavailable"] = "%s: %s" % (type(e).__name__, e)
+    if "hist" in req:
+        try:
+            out["hist"] = hist_runs(req["hist"])
+        except Exception as e:
+            out["hist_unavailable"] = "%s: %s" % (type(e).__name__, e)
     json.dump(out, sys.stdout)
 
 
